@@ -3,6 +3,10 @@ import LeptosModel.Proofs.ViewSteps
 namespace Leptos.View
 open Leptos.Dom
 
+-- `R`: how the attribute list of an element relates to the fresh render's (`Eq` for the static
+-- fragment, lookup-equality `AttrsEq` where removal and re-insertion change the order)
+variable {R : List (String × String) → List (String × String) → Prop}
+
 /-- `Vec::rebuild` mounting freshly built items one after the other before the marker -/
 theorem mountBeforeEach_eq (ss : List State) : ∀ (d : Dom) (p mk : Id) (rp rm : NodeRec)
     (l1 l2 : List Id),
@@ -54,7 +58,7 @@ theorem mountBeforeEach_eq (ss : List State) : ∀ (d : Dom) (p mk : Id) (rp rm 
 /-- `Vec::rebuild` unmounting all (remaining) items: only the marker stays -/
 theorem vec_clear_spec (as : List View) (sts : List State) (mk : Id) (d : Dom) (p : Id)
     (pre post : List Id)
-    (hrep : RepList d as sts (some p)) (hmk : NodeIs d mk .comment "" (some p))
+    (hrep : RepList R d as sts (some p)) (hmk : NodeIs d mk .comment "" (some p))
     (hinv : Inv d (State.rootsList sts ++ [mk]) (ownedList sts ++ [mk]) p pre post) :
     NodeIs (unmountList sts d) mk .comment "" (some p) ∧
     Res d (unmountList sts d) (ownedList sts ++ [mk]) ([] ++ [mk]) ([] ++ [mk]) p pre post := by
@@ -92,9 +96,9 @@ theorem vec_clear_spec (as : List View) (sts : List State) (mk : Id) (d : Dom) (
 
 /-- `Vec::rebuild` adding one item: build it and mount it before the marker -/
 theorem vec_add_spec (b : View) (mk : Id) (d : Dom) (p : Id) (pre post : List Id)
-    (hb : AllEl AttrsFresh b) (hmk : NodeIs d mk .comment "" (some p))
+    (hb : AllEl (AttrsFresh R) b) (hmk : NodeIs d mk .comment "" (some p))
     (hinv : Inv d ([] ++ [mk]) ([] ++ [mk]) p pre post) :
-    Rep (mountBefore (build b d).2 mk (build b d).1) b (build b d).2 (some p) ∧
+    Rep R (mountBefore (build b d).2 mk (build b d).1) b (build b d).2 (some p) ∧
     Res d (mountBefore (build b d).2 mk (build b d).1) [] (build b d).2.roots (owned (build b d).2)
       p pre ([mk] ++ post) := by
   have hB := build_spec b d hb
@@ -162,9 +166,9 @@ theorem vec_add_spec (b : View) (mk : Id) (d : Dom) (p : Id) (pre post : List Id
 
 /-- `Vec::rebuild` from an empty list: build everything, mount each item before the marker -/
 theorem vec_fill_spec (bs : List View) (mk : Id) (d : Dom) (p : Id) (pre post : List Id)
-    (hb : AllElList AttrsFresh bs) (hmk : NodeIs d mk .comment "" (some p))
+    (hb : AllElList (AttrsFresh R) bs) (hmk : NodeIs d mk .comment "" (some p))
     (hinv : Inv d ([] ++ [mk]) ([] ++ [mk]) p pre post) :
-    RepList (mountBeforeEach (buildList bs (d.create .comment "").1).2 mk
+    RepList R (mountBeforeEach (buildList bs (d.create .comment "").1).2 mk
         (buildList bs (d.create .comment "").1).1) bs (buildList bs (d.create .comment "").1).2 (some p) ∧
     NodeIs (mountBeforeEach (buildList bs (d.create .comment "").1).2 mk
         (buildList bs (d.create .comment "").1).1) mk .comment "" (some p) ∧
@@ -194,7 +198,7 @@ theorem vec_fill_spec (bs : List View) (mk : Id) (d : Dom) (p : Id) (pre post : 
   have hrsub : ∀ x, x ∈ State.rootsList new → x ∈ ownedList new := rootsList_sub_ownedList new
   have hnd : (ownedList new).Nodup := by simpa [owned] using hB.nodup
   have hrnd : (State.rootsList new).Nodup := (rootsList_sublist_ownedList new).nodup hnd
-  have hrep : RepList d2 bs new none := by simpa only [Rep] using hB.rep
+  have hrep : RepList R d2 bs new none := by simpa only [Rep] using hB.rep
   have hroots := RepList.roots_parent bs new none hrep
   have hpn : p ∉ State.rootsList new := fun h => by have := hrange p (hrsub p h); omega_nat
   have hmkn : mk ∉ State.rootsList new := fun h => by have := hrange mk (hrsub mk h); omega_nat
